@@ -16,6 +16,7 @@ type Mut struct {
 	Col     string
 	Mutator string
 	Arg     val.Val // for map delete-by-keys: a set value
+	Single  bool    // a one-element set argument goes on the wire as the bare atom (RFC 7047 5.1: <set> or <atom>)
 }
 
 // RowOp is an operation on one row (insert/update/mutate/delete).
@@ -65,6 +66,9 @@ func jsonRowOp(op RowOp) interface{} {
 
 // mutOvsArg renders the mutation argument in OVS notation for column c.
 func mutOvsArg(c *val.Col, m Mut) interface{} {
+	if m.Single && m.Arg.K == 's' && len(m.Arg.Set) == 1 && (c.K == 's' || c.K == 'm') {
+		return m.Arg.Set[0].Ovs()
+	}
 	switch c.K {
 	case 'a':
 		return m.Arg.A.Ovs()
